@@ -694,6 +694,18 @@ impl Compiler {
                 self.compile_index_expression(expr)?;
             }
             Expression::Assign(expr) => {
+                // Only a variable, an element or a property can be assigned to.
+                // Anything else would be compiled as a second value, which
+                // nothing ever removes from the stack again
+                if !matches!(
+                    *expr.left,
+                    Expression::Ident(_) | Expression::Index(_) | Expression::Prop(_)
+                ) {
+                    return Err(CompileError::new(
+                        "Invalid assignment target",
+                        expr.token.line,
+                    ));
+                }
                 // compile the expression on the right side of the assignment
                 self.compile_expression(*expr.right)?;
                 self.compile_expression(*expr.left)?;
